@@ -135,7 +135,7 @@ def run(s):
             me = duck_of(F, modulus_keys=list(use), get_static_modulus=lambda k: ST[k])
             setattr(me, attr, PH)
             prop = getattr(F, "modulus_" + which)
-            body = prop.method if hasattr(prop, "method") else prop.fget
+            body = _prop_body(prop)
             holder = {}
 
             def thunk():
@@ -262,6 +262,17 @@ def run(s):
     s.min_obligations = 12
 
 
+def _prop_body(prop):
+    """the function behind a LazyProperty / property / functools.cached_property / plain method"""
+    for attr in ("method", "fget", "func"):
+        f = getattr(prop, attr, None)
+        if callable(f):
+            return f
+    if callable(prop):
+        return prop
+    raise core.OutsideSubset("attribute %r is not a property-like object" % (prop,))
+
+
 def _sel(i, terms):
     i = z3.simplify(i)
     if z3.is_int_value(i):
@@ -293,7 +304,7 @@ def native_total(fm, which):
     me = duck_of(fm.FullThermalElasticModulus, modulus_keys=keys, get_static_modulus=lambda k: st[k])
     setattr(me, "_%s_phonon_contribution" % which, ph)
     prop = getattr(fm.FullThermalElasticModulus, "modulus_" + which)
-    res = (prop.method if hasattr(prop, "method") else prop.fget)(me)
+    res = _prop_body(prop)(me)
     bad = any(not numpy.allclose(res[k], st[k][None, :] + ph0[k]) for k in keys) or any(not numpy.array_equal(ph[k], ph0[k]) for k in keys)
     return {"reproduced": bool(bad), "observed": {repr(k): numpy.asarray(res[k]).tolist() for k in keys},
             "expected": {repr(k): (st[k][None, :] + ph0[k]).tolist() for k in keys}}
